@@ -177,14 +177,28 @@ def main():
     if not os.path.realpath(goodwe.__file__).startswith(os.path.realpath(repo)):
         print(json.dumps({"fatal": f"goodwe imported from {goodwe.__file__}, expected under {repo}"}))
         return 3
+    def run(tasks):
+        out = []
+        for t in tasks:
+            try:
+                out.append({"ok": True, "result": OPS[t["op"]](t)})
+            except BaseException as e:      # noqa
+                out.append({"ok": False, "error": repr(e), "trace": traceback.format_exc()[-2000:]})
+        return out
+
+    if "--serve" in sys.argv:
+        # one JSON list of tasks per input line, one JSON list of results per output line
+        real_out = sys.stdout
+        sys.stdout = sys.stderr          # anything the code under test prints must not corrupt the channel
+        for line in sys.stdin:
+            line = line.strip()
+            if not line:
+                continue
+            real_out.write(json.dumps(run(json.loads(line))) + "\n")
+            real_out.flush()
+        return 0
     tasks = json.load(sys.stdin)
-    out = []
-    for t in tasks:
-        try:
-            out.append({"ok": True, "result": OPS[t["op"]](t)})
-        except BaseException as e:      # noqa
-            out.append({"ok": False, "error": repr(e), "trace": traceback.format_exc()[-2000:]})
-    json.dump(out, sys.stdout)
+    json.dump(run(tasks), sys.stdout)
     return 0
 
 
